@@ -14,7 +14,7 @@ func init() {
 	fw.Register(&fw.Check{
 		ID:    "C05",
 		Level: "fault_enumeration",
-		Rule: "base modules = every atom and generated module that both LLVM and the parser accept. Single-point naming faults are enumerated from the token stream of each base: every use of a global, local, type, comdat, metadata ID or attribute-group identifier (operands, callees, branch targets, phi predecessors, type uses, comdat uses, metadata uses in attachments/tuples/DI fields/named metadata, blockaddress operands, uselistorder targets) is redirected, one at a time, to a fresh undefined identifier of the same sigil and to a look-alike of its own name (name.1, name0, name less a character, name., another case; judged when LLVM's diagnostic is about naming), and every definition (global, function, type, comdat, metadata ID, local value, label) is duplicated, one at a time. About 100 hand-written faults add the shapes the enumeration cannot reach (a block address taken in a declaration, label/value name clashes, undefined names inside switch/indirectbr/invoke/callbr/bundles/casts/allocas/funclet terminators/use-list orders, duplicate comdats and metadata IDs, quoted-digit names next to IDs, references spelled with the empty quoted name, explicit %0 given twice, ...); every definition line is also removed, one at a time, after the intact base was parsed in the same process. A fault counts when LLVM rejects the faulted text; then asm.ParseString must return an error and no module, without panicking. " +
+		Rule: "base modules = every atom and generated module that both LLVM and the parser accept. Single-point naming faults are enumerated from the token stream of each base: every use of a global, local, type, comdat, metadata ID or attribute-group identifier (operands, callees, branch targets, phi predecessors, type uses, comdat uses, metadata uses in attachments/tuples/DI fields/named metadata, blockaddress operands, uselistorder targets) is redirected, one at a time, to a fresh undefined identifier of the same sigil and to a look-alike of its own name (name.1, name0, name less a character, name., another case; judged when LLVM's diagnostic is about naming), and every definition (global, function, type, comdat, metadata ID, local value, label) is duplicated, one at a time, verbatim and under another spelling of its identifier (quoted, first character escaped, zero-padded metadata ID). About 100 hand-written faults add the shapes the enumeration cannot reach (a block address taken in a declaration, label/value name clashes, undefined names inside switch/indirectbr/invoke/callbr/bundles/casts/allocas/funclet terminators/use-list orders, duplicate comdats and metadata IDs, quoted-digit names next to IDs, references spelled with the empty quoted name, explicit %0 given twice, ...); every definition line is also removed, one at a time, after the intact base was parsed in the same process. A fault counts when LLVM rejects the faulted text; then asm.ParseString must return an error and no module, without panicking. " +
 			"Further faults: the verdict 'neither error nor module' is a violation of its own; references spelled with the empty quoted name in every position; explicit %0 given twice or out of position; undefined types inside attributes; explicit and misnumbered results of invoke, callbr and catchswitch. " +
 			"non-trivial = a faulted input LLVM rejects; distinct by (base, site)",
 		Gen:           genC05,
@@ -300,6 +300,15 @@ func c05Faults(text string) []c05Fault {
 			sb.WriteString(ins)
 			sb.WriteString(text[off+len(l):])
 			out = append(out, c05Fault{kind: dup, text: sb.String(), site: fmt.Sprintf("line %d", i+1)})
+			// the same definition once more under another spelling of its identifier
+			// (quoted, an escaped character, a zero-padded number): still the same name
+			if alt := c05RespellDef(ins); alt != "" && alt != ins {
+				var sb2 strings.Builder
+				sb2.WriteString(text[:off+len(l)])
+				sb2.WriteString(alt)
+				sb2.WriteString(text[off+len(l):])
+				out = append(out, c05Fault{kind: dup + "-respelled", text: sb2.String(), site: fmt.Sprintf("line %d", i+1), naming: true})
+			}
 		}
 		off += len(l)
 	}
@@ -583,4 +592,65 @@ func c05LookAlike(tok string, variant int) string {
 		return tok[:1] + `"` + alike + `"`
 	}
 	return tok[:1] + alike
+}
+
+// c05RespellDef rewrites the identifier a definition line (or label line)
+// defines into another spelling of the same name: name -> "name", "name" ->
+// "\XXame" (first byte escaped), !7 -> !07, @7 / %7 unchanged (returns "").
+func c05RespellDef(l string) string {
+	indent := l[:len(l)-len(strings.TrimLeft(l, " \t"))]
+	body := l[len(indent):]
+	// a label line, possibly preceded by the terminator the enumeration inserts
+	if i := strings.LastIndex(l, "\n"); i >= 0 && i < len(l)-1 {
+		head, last := l[:i+1], l[i+1:]
+		if alt := c05RespellDef(last); alt != "" {
+			return head + alt
+		}
+		return ""
+	}
+	respell := func(id string) string {
+		if id == "" {
+			return ""
+		}
+		if id[0] == '"' && len(id) >= 3 && id[len(id)-1] == '"' && id[1] != '\\' {
+			return fmt.Sprintf(`"\%02X%s`, id[1], id[2:])
+		}
+		if id[0] == '"' {
+			return ""
+		}
+		for i := 0; i < len(id); i++ {
+			if id[i] < '0' || id[i] > '9' {
+				return `"` + id + `"`
+			}
+		}
+		return "" // a number
+	}
+	trim := strings.TrimRight(body, "\n")
+	if strings.HasSuffix(trim, ":") && !strings.Contains(trim, " ") {
+		if alt := respell(strings.TrimSuffix(trim, ":")); alt != "" {
+			return indent + alt + ":\n"
+		}
+		return ""
+	}
+	if len(body) < 2 {
+		return ""
+	}
+	sig := body[0]
+	eq := strings.Index(body, " = ")
+	if eq < 0 || !(sig == '@' || sig == '$' || sig == '%' || sig == '!') {
+		return ""
+	}
+	id := body[1:eq]
+	if sig == '!' {
+		for i := 0; i < len(id); i++ {
+			if id[i] < '0' || id[i] > '9' {
+				return ""
+			}
+		}
+		return indent + "!0" + id + body[eq:]
+	}
+	if alt := respell(id); alt != "" {
+		return indent + string(sig) + alt + body[eq:]
+	}
+	return ""
 }
